@@ -161,14 +161,19 @@ def desugar_tree(tree):
     (2) an f-string without conversions / format specs becomes the equivalent "..{}..".format(..) call."""
     class F(ast.NodeTransformer):
         def visit_JoinedStr(self, n):
-            self.generic_visit(n)
             tmpl, args = "", []
             for v in n.values:
                 if isinstance(v, ast.Constant) and isinstance(v.value, str):
                     tmpl += v.value.replace("{", "{{").replace("}", "}}")
-                elif isinstance(v, ast.FormattedValue) and v.conversion == -1 and v.format_spec is None:
-                    tmpl += "{}"
-                    args.append(v.value)
+                elif isinstance(v, ast.FormattedValue) and v.conversion == -1:
+                    spec = v.format_spec
+                    if spec is None:
+                        tmpl += "{}"
+                    elif isinstance(spec, ast.JoinedStr) and all(isinstance(x, ast.Constant) and isinstance(x.value, str) for x in spec.values):
+                        tmpl += "{:" + "".join(x.value for x in spec.values) + "}"
+                    else:
+                        return n
+                    args.append(self.visit(v.value))
                 else:
                     return n
             call = ast.Call(func=ast.Attribute(value=ast.Constant(value=tmpl), attr="format", ctx=ast.Load()), args=args, keywords=[])
@@ -198,6 +203,62 @@ def desugar_tree(tree):
     ast.fix_missing_locations(tree)
 
 
+def deitems(fn):
+    """for k, v in D.items(): ..v..  ->  for k in D: ..D[k]..   (in place, on an already cloned function; v must not be re-bound
+    and D must be a pure path that the loop body does not store into)"""
+    for lp in [x for x in ast.walk(fn) if isinstance(x, ast.For)]:
+        it = lp.iter
+        if not (isinstance(it, ast.Call) and isinstance(it.func, ast.Attribute) and it.func.attr == "items" and not it.args and not it.keywords
+                and isinstance(lp.target, ast.Tuple) and len(lp.target.elts) == 2 and all(isinstance(e, ast.Name) for e in lp.target.elts)):
+            continue
+        k, v = lp.target.elts[0].id, lp.target.elts[1].id
+        D = it.func.value
+        d = D
+        while isinstance(d, (ast.Attribute, ast.Subscript)):
+            if isinstance(d, ast.Subscript) and not isinstance(d.slice, (ast.Constant, ast.Name)):
+                break
+            d = d.value
+        if not isinstance(d, ast.Name):
+            continue
+        if any(isinstance(x, ast.Name) and x.id in (k, v) and isinstance(x.ctx, ast.Store) for s in lp.body for x in ast.walk(s)):
+            continue
+        dtxt = ast.unparse(D)
+        if any(isinstance(x, (ast.Subscript, ast.Attribute)) and isinstance(x.ctx, (ast.Store, ast.Del)) and ast.unparse(x).startswith(dtxt) for s in lp.body for x in ast.walk(s)):
+            continue
+
+        class Sub(ast.NodeTransformer):
+            def visit_Name(self, n):
+                if n.id == v and isinstance(n.ctx, ast.Load):
+                    return ast.copy_location(ast.Subscript(value=clone_ast(D), slice=ast.Name(id=k, ctx=ast.Load()), ctx=ast.Load()), n)
+                return n
+        lp.body = [Sub().visit(s) for s in lp.body]
+        lp.target = ast.copy_location(ast.Name(id=k, ctx=ast.Store()), lp.target)
+        lp.iter = clone_ast(D)
+    ast.fix_missing_locations(fn)
+    return fn
+
+
+def decontinue(fn):
+    """loop body `if C: continue` followed by the rest  ->  `if not C: rest`  (in place, on a cloned function)"""
+    def fix(stmts, in_loop):
+        for i, s in enumerate(stmts):
+            for fld in ("body", "orelse", "finalbody"):
+                blk = getattr(s, fld, None)
+                if isinstance(blk, list) and blk and isinstance(blk[0], ast.stmt):
+                    setattr(s, fld, fix(blk, isinstance(s, (ast.For, ast.While)) and fld == "body" or (in_loop and not isinstance(s, (ast.For, ast.While)))))
+        if in_loop:
+            for i, s in enumerate(stmts):
+                if isinstance(s, ast.If) and len(s.body) == 1 and isinstance(s.body[0], ast.Continue) and not s.orelse and i + 1 < len(stmts):
+                    rest = fix(stmts[i + 1:], True)
+                    neg = s.test.operand if isinstance(s.test, ast.UnaryOp) and isinstance(s.test.op, ast.Not) else ast.UnaryOp(op=ast.Not(), operand=s.test)
+                    new = ast.copy_location(ast.If(test=neg, body=rest, orelse=[]), s)
+                    return stmts[:i] + [new]
+        return stmts
+    fn.body = fix(fn.body, False)
+    ast.fix_missing_locations(fn)
+    return fn
+
+
 def inline_pure_aliases(fn, keep=()):
     """copy of a function in which every local that is bound exactly once, at the top level of the body, to a pure path
     expression (names, attributes, constant / name subscripts - no calls, no arithmetic) is replaced by that expression,
@@ -205,7 +266,7 @@ def inline_pure_aliases(fn, keep=()):
     followed by `off[i]` reads like `pstate["off"][i]`.  Behaviour-preserving by construction; used by shape-matching
     rules so that an alias does not change what they see."""
     import copy
-    fn = clone_ast(fn)
+    fn = deitems(clone_ast(fn))
     binds = {}
     for x in ast.walk(fn):
         if isinstance(x, ast.Name) and isinstance(x.ctx, (ast.Store, ast.Del)):
@@ -364,6 +425,17 @@ class Model:
                     self.consts[(mod, n.targets[0].id)] = n.value
 
     # ---- lookups
+    def norm_func(self, mod, name):
+        """module-level function in normal form: pure aliases inlined, items() loops as key loops, guard-continue as if"""
+        cache = self.__dict__.setdefault("_norm_funcs", {})
+        if (mod, name) not in cache:
+            fn = decontinue(inline_pure_aliases(self.func(mod, name)))
+            for node in ast.walk(fn):
+                for ch in ast.iter_child_nodes(node):
+                    ch._parent = node
+            cache[(mod, name)] = fn
+        return cache[(mod, name)]
+
     def norm_method(self, cls, name):
         """own_method with pure local aliases inlined (cached): what shape-matching rules should read"""
         cache = self.__dict__.setdefault("_norm_methods", {})
